@@ -128,6 +128,7 @@ def toy : Engine (List String) where
   fresh := []
   unload := fun _ => []
   readDb := fun _ db => if db = "bad" then ([], 1) else ([db], 0)
+  readDbText := fun _ db => if db = "bad" then ("ERROR: bad database", "") else ("", "")
   run := fun e env s =>
     (e ++ [s],
      { errors := if s = "fail" then 1 else 0,
@@ -271,6 +272,10 @@ theorem pointer_members_reset :
 /-- PHRQ_io switches that input can flip are restored by UnLoadDatabase / the read_input prologue or explained -/
 theorem io_flags_reset :
     ∀ f ∈ ioFlagsSetByReaders, f ∈ ioFlagsResetByUnload ∨ f ∈ ioFlagsResetByPrologue ∨ f ∈ ioHealed.map (·.1) ∨ f ∈ knownUnresetIo := by
+  decide +kernel
+
+/-- the load path has the shape the model gives it (facts over the bodies with helpers inlined) -/
+theorem load_shape_ok : ∀ p ∈ expectedLoadShape, p ∈ loadShape := by
   decide +kernel
 
 /-- every data member of class IPhreeqc / PHRQ_io has a class in the policy, and the policy names only existing members -/
